@@ -32,16 +32,16 @@ theorem loopPy_eq (cycleML : X → X) (coarse : X) (oneLevel : Bool) (resnorm : 
     simp only [loopPy, loop]
     have hx : (if oneLevel then coarse else cycleML x) = cyc cycleML coarse oneLevel x := rfl
     rw [hx]
-    by_cases hb : below (resnorm (cyc cycleML coarse oneLevel x)) = true
-    · simp only [hb, if_true, Option.map_some, view]
-      cases hasRes <;> cases hasCb <;> simp
-    · simp only [hb, if_false]
+    cases hb : below (resnorm (cyc cycleML coarse oneLevel x))
+    · simp only [Bool.false_eq_true, ↓reduceIte]
       by_cases hm : it + 1 = maxiter
-      · simp only [hm, if_true, Option.map_some, view]
+      · simp only [if_pos hm, Option.map_some, view]
         cases hasRes <;> cases hasCb <;> simp
-      · simp only [hm, if_false]
+      · simp only [if_neg hm]
         rw [← h]
         cases hasRes <;> cases hasCb <;> simp
+    · simp only [↓reduceIte, Option.map_some, view]
+      cases hasRes <;> cases hasCb <;> simp
 
 /-- the Python function is the bookkeeping loop, seen through the options.  The previous content of
 the caller's `residuals` list has no influence. -/
@@ -51,12 +51,11 @@ theorem solvePy_eq (zeros : X) (cycleML : X → X) (coarse : X) (oneLevel : Bool
     solvePy zeros cycleML coarse oneLevel resnorm below maxiter x0 residuals hasCb returnInfo =
       (solve (cyc cycleML coarse oneLevel) resnorm below maxiter (x0.getD zeros)).map
         (view residuals.isSome hasCb returnInfo) := by
-  have hx : (match x0 with | none => zeros | some v => v) = x0.getD zeros := by cases x0 <;> rfl
   have h := loopPy_eq cycleML coarse oneLevel resnorm below maxiter residuals.isSome hasCb returnInfo
     maxiter 0 (x0.getD zeros) [resnorm (x0.getD zeros)] []
-  simp only [solvePy, solve, hx]
+  simp only [solvePy, solve]
   rw [← h]
-  cases residuals <;> cases hasCb <;> simp
+  cases x0 <;> cases residuals <;> cases hasCb <;> simp
 
 /-- **C01 in the caller's observables.**  For `maxiter ≥ 1` the call returns; with `k` the number of
 cycles performed and `xs` the starting vector (`x0`, or zeros when omitted):
@@ -170,6 +169,7 @@ theorem solvePy_oneLevel (zeros : X) (cycleML : X → X) (coarse : X) (resnorm :
 /-- the threshold test on rationals is the property's: strictly below `tol·‖b‖`, `‖b‖ = 0 ↦ 1` -/
 theorem belowRat_iff (tol normb r : Rat) :
     belowRat tol normb r = true ↔ r < tol * (if normb = 0 then 1 else normb) := by
-  simp [belowRat, normbEff]
+  unfold belowRat normbEff
+  exact decide_eq_true_iff
 
 end PyamgV.C01
